@@ -188,3 +188,17 @@ func init() {
 		Rules:       []*Rule{ruleAtomicWrite},
 	})
 }
+
+func init() {
+	Register(&Property{
+		ID: "C19",
+		Explanation: "Decides the drawing discipline of the SVG platform structurally (R-SVG): coordinate roles taken from the GraphicsPlatform " +
+			"interface go through the matching transform and x/y siblings are computed symmetrically; style methods flush pending shapes before " +
+			"the pen changes and set their attributes unconditionally; each drawing method queues exactly one element on every path; Push consults " +
+			"an element's own attributes; grid steps are validated; no style value is dead-stored; bytes reach the writer only through the XML " +
+			"encoder and no string field is raw inner XML; the graphics built-ins agree with their declarations (R-BUILTINSIG).",
+		NotDecided:  "The grouping outcome for arbitrary style histories beyond these clauses, numeric formatting, the sign flip of the y extent in Rect.",
+		Assumptions: []string{},
+		Rules:       []*Rule{ruleSVG, ruleBuiltinSig},
+	})
+}
